@@ -419,6 +419,7 @@ func cmdCheck(argv []string) int {
 			cfg.SymSched = cfgBool(c, "sym_sched")
 			cfg.Delays = int(cfgInt(c, "delays", 0))
 			cfg.DelayPreempt = cfgBool(c, "delay_preempt")
+			cfg.DelayAny = cfgBool(c, "delay_any")
 			cfg.SelectFirst = cfgBool(c, "select_first")
 			cfg.SymMapOrder = cfgBool(c, "sym_map_order")
 			cfg.ConcretizeCap = int(cfgInt(c, "concretize_cap", int64(cfg.ConcretizeCap)))
